@@ -79,35 +79,38 @@ fn heap_worker(ctx: &WorkerCtx, footprint: bool) -> Report {
     let mut rep = Report::default();
     let archs = Arch::all();
     let n = ctx.nshards;
-    // (K variables, live-block bound, rich alphabet): each configuration is searched to a fixpoint
-    let configs: Vec<(usize, usize, bool)> = if ctx.tier.thorough() {
-        vec![(2, 3, false), (3, 2, false), (2, 4, false), (2, 3, true), (3, 3, false), (4, 2, false)]
+    // (K variables, live-block bound, rich alphabet, padded): each configuration is searched to a
+    // fixpoint; "padded" puts identity variables in front so that the window straddles the
+    // register/spill boundary (x86-64: 5, AArch64: 12; RV64 has no spills: 6)
+    let configs: Vec<(usize, usize, bool, bool)> = if ctx.tier.thorough() {
+        vec![(2, 3, false, false), (3, 2, false, false), (2, 3, false, true), (3, 2, false, true), (2, 4, false, false), (2, 3, true, false), (3, 3, false, false), (4, 2, false, false), (2, 4, false, true)]
     } else {
-        vec![(2, 3, false), (3, 2, false)]
+        vec![(2, 3, false, false), (3, 2, false, false), (2, 3, false, true)]
     };
-    let mut tasks: Vec<(Arch, (usize, usize, bool))> = Vec::new();
-    for c in &configs {
+    let mut tasks: Vec<(Arch, (usize, usize, bool, usize))> = Vec::new();
+    for (k, live, rich, padded) in &configs {
         for a in archs {
-            tasks.push((a, *c));
+            let pad = if !*padded { 0 } else { match a { Arch::X86 => 5, Arch::A64 => 12, Arch::Rv64 => 6 } };
+            tasks.push((a, (*k, *live, *rich, pad)));
         }
     }
     let ntasks = tasks.len() as u64;
     let exec_shard = if n > ntasks { if ctx.shard >= ntasks { Some(ctx.shard - ntasks) } else { None } } else { Some(ctx.shard) };
     let exec_n = if n > ntasks { n - ntasks } else { n };
-    for (ti, (arch, (k, live, rich))) in tasks.into_iter().enumerate() {
+    for (ti, (arch, (k, live, rich, pad))) in tasks.into_iter().enumerate() {
         if ti as u64 % n != ctx.shard {
             continue;
         }
         let cap = if ctx.tier.thorough() { 12_000_000u64 } else { 1_000_000u64 };
-        let out = heapbfs::search(arch, k, live, rich, cap, ctx, &mut rep);
+        let out = heapbfs::search(arch, k, live, rich, pad, cap, ctx, &mut rep);
         rep.count("states", out.states);
         rep.count("transitions", out.transitions);
         rep.count("traces_validated_against_impl", out.transitions);
         rep.count("bfs_states", out.states);
         rep.count("cases", out.transitions);
-        rep.distinct.push(hash64(&(arch.name(), k, live, rich, out.states)));
+        rep.distinct.push(hash64(&(arch.name(), k, live, rich, pad, out.states)));
         rep.notes.push(format!(
-            "BFS {} K={k} live<={live} rich-alphabet={rich}: {} canonical states, {} transitions, depth {}, fixpoint reached: {}",
+            "BFS {} K={k} live<={live} rich-alphabet={rich} pad={pad}: {} canonical states, {} transitions, depth {}, fixpoint reached: {}",
             arch.name(), out.states, out.transitions, out.depth, out.fixpoint
         ));
         if out.fixpoint {
@@ -116,7 +119,7 @@ fn heap_worker(ctx: &WorkerCtx, footprint: bool) -> Report {
         if let Some(c) = out.cap {
             rep.capped = Some(match rep.capped.take() { Some(p) => format!("{p}; {c}"), None => c });
         }
-        rep.outcomes.insert(format!("bfs/{}/K{k}/L{live}/rich{rich}/fixpoint={}", arch.name(), out.fixpoint));
+        rep.outcomes.insert(format!("bfs/{}/K{k}/L{live}/rich{rich}/pad{pad}/fixpoint={}", arch.name(), out.fixpoint));
     }
     if let Some(es) = exec_shard {
         let sub = WorkerCtx { tier: ctx.tier, shard: es, nshards: exec_n, seed: ctx.seed, started: ctx.started, budget_s: ctx.budget_s };
